@@ -211,13 +211,21 @@ Definition function_plans (p : prog) (m : model) : bool :=
    only succeed when that Var is dropped as unused) *)
 Definition main_args (inputs : list (string * var)) : list var :=
   fold_left (fun acc kv => add_set var_eqb (snd kv) acc) inputs [].
+(* the arguments of the emitted main graph: all distinct inputs, or with drop_unused_inputs those some output depends on *)
+Definition request_args (p : prog) (r : request) (inputs outputs : list (string * var)) : list var :=
+  let pre := with_main p (Some (main_args inputs)) outputs in
+  if r_drop r then filter (fun v => mem var_eqb v (depends_on pre 0)) (main_args inputs) else main_args inputs.
+Definition final_prog (p : prog) (r : request) (inputs outputs : list (string * var)) : prog :=
+  with_main p (Some (request_args p r inputs outputs)) outputs.
+
 Definition validators (p : prog) (r : request) (m : model) : bool :=
   match all_vars (r_inputs r), all_vars (r_outputs r) with
   | Some inputs, Some outputs =>
-    let p' := with_main p (Some (main_args inputs)) outputs in
+    let p' := final_prog p r inputs outputs in
     global_unique (mmain m) && node_names_unique (mmain m) && imports_unique m && floor_ok m &&
-    emitted_once p' (mmain m) && placed p' (mmain m) && check_plan p' 0 (mmain m) && names_ok p' 0 (mmain m) &&
+    emitted_once p' (mmain m) && placed p' (mmain m) && check_plan p' 0 (mmain m) &&
     functions_exact p' m && function_imports_cover p' m && function_plans p' m && inline_blocks_alpha p' m &&
+    names_ok p' 0 (mmain m) &&
     io_exact p' inputs outputs (r_drop r) (depends_on p' 0) (mmain m)
   | _, _ => false end.
 
